@@ -14,6 +14,7 @@ import Gsp.Model.Verify
 import Gsp.Model.Loader
 import Gsp.Model.Json
 import Gsp.Model.Schema
+import Gsp.Model.Ctx
 /-! Line-protocol driver: one JSON case per line on stdin, one `{"id","out"}` per line on stdout. Core-only. -/
 open Lean Gsp
 
@@ -515,6 +516,66 @@ def opSchemaValidate (inp : Json) : Except String Json := do
     | .ok true => okJ (Json.str "valid")
     | .ok false => okJ (Json.str "invalid"))
 
+
+/-! ### contexts and paths -/
+def termDefOf (j : Json) : Except String Ctx.TermDef := do
+  let sub := match j.getObjVal? "sub" with
+    | .ok (.num n) => some n.mantissa.toNat
+    | _ => none
+  pure { name := ← jstr j "name", iri := ← jstr j "iri", datatype := ← jstr j "dt", sub := sub }
+
+def ctxSchemaOf (j : Json) : Except String Ctx.Schema := do
+  let ctxs ← (← (← j.getObjVal? "ctxs").getArr?).toList.mapM fun c => do
+    let id ← (← c.getObjVal? "id").getNat?
+    let terms ← match c.getObjVal? "terms" with
+      | .ok (.arr ts) => ts.toList.mapM termDefOf
+      | _ => pure []
+    pure (id, terms)
+  pure { ctxs := ctxs, top := ← (← j.getObjVal? "top").getNat? }
+
+partial def ctxNodeOf (j : Json) : Except String Ctx.Node := do
+  let types ← (← (← j.getObjVal? "types").getArr?).toList.mapM (·.getStr?)
+  let props ← (← (← j.getObjVal? "props").getArr?).toList.mapM fun pj => do
+    let name ← jstr pj "name"
+    let members ← (← (← pj.getObjVal? "members").getArr?).toList.mapM fun m => match m with
+      | .null => pure none
+      | x => do pure (some (← ctxNodeOf x))
+    pure (name, members)
+  pure (.mk types props)
+
+def partsJ' (r : Except String (List Rdf.PathPart)) : Json :=
+  exceptJ (fun ps => Json.arr (ps.map partJ).toArray) r
+
+def eraseIdx (ps : List Rdf.PathPart) : List String :=
+  ps.filterMap fun p => match p with | .s v => some v | .i _ => none
+
+def opCtxPaths (inp : Json) : Except String Json := do
+  let sch ← ctxSchemaOf (← inp.getObjVal? "schema")
+  let doc ← ctxNodeOf (← inp.getObjVal? "doc")
+  let path ← (← (← inp.getObjVal? "path").getArr?).toList.mapM (·.getStr?)
+  let tp ← jstr inp "type"
+  let viaArr ← (← inp.getObjVal? "array").getBool?
+  let top := (Ctx.termsOf sch sch.top).getD []
+  let fuel := 4 * path.length + 8
+  let docPath := Ctx.pathFromDocument sch fuel [] (.single (some doc)) false path
+  -- the document's own context is the schema's top-level context: it is applied first (Go: docObj["@context"])
+  let docPath := match Ctx.applyCtx sch [] (some sch.top) with
+    | some a0 => Ctx.pathFromDocument sch fuel a0 (.single (some doc)) false path
+    | none => docPath
+  let spec := Ctx.storedKey sch fuel top (some doc) path
+  let stored : Bool := match docPath, spec with
+    | .ok a, .ok b => if viaArr then eraseIdx a == eraseIdx b else a == b
+    | _, _ => false
+  let noIdx := path.filter fun p => !Ctx.isNumeric p
+  let dt := Ctx.typeFromContext sch top (tp :: noIdx)
+  pure (Json.mkObj [("doc", partsJ' docPath), ("stored", Json.bool stored),
+    ("field", partsJ' (Ctx.fieldPathFromContext sch tp path)),
+    ("dt", exceptJ Json.str dt)])
+
+def opCtxTypeId (inp : Json) : Except String Json := do
+  let sch ← ctxSchemaOf (← inp.getObjVal? "schema")
+  pure (exceptJ Json.str (Ctx.typeIDFromContext sch (← jstr inp "type")))
+
 def handle (k : Pos.Consts) (op : String) (inp : Json) : Except String Json :=
   match op with
   | "pre.hash" => opPreHash k inp
@@ -533,6 +594,8 @@ def handle (k : Pos.Consts) (op : String) (inp : Json) : Except String Json :=
   | "verify.status" => opVerifyStatus k inp
   | "verify.http" => opVerifyHttp inp
   | "cred.view" => opCredView inp
+  | "ctx.paths" => opCtxPaths inp
+  | "ctx.typeid" => opCtxTypeId inp
   | "schema.validate" => opSchemaValidate inp
   | "loader.run" => opLoaderRun inp
   | "loader.expected" => opLoaderExpected inp
